@@ -8,6 +8,12 @@ NOTE = ("Trusted base: z3 5.1 and cvc5 1.4 (an answer counts only if no other en
         "floats are modelled as reals; the stubs listed in the evidence file (NumPy/SciPy shims, contract stubs) behave as documented.")
 
 CHECKS = {
+    "C04": dict(cat="translation_validation", tech="symbolic execution of the real assembler (public API) on free geometry with an uninterpreted kernel; entrywise polynomial identities with UFs decided by cvc5/z3",
+                text="Two paths through the real code (operator on the subspace vs T' A_loc T with the operator on the element-wise full-grid space) are proved equal entry by entry for every geometry and kernel value, on base meshes of <= 6 (8) elements, regular order <= 2 (3), singular order 1 (2), for P1/DP0/DP1/RWG/SNC spaces with segment, support-element and boundary-dof options and scalar, hypersingular and Maxwell operators.",
+                ref="3/C04"),
+    "C06": dict(cat="translation_validation", tech="symbolic execution of the hypersingular / Maxwell / single-layer assemblers through the public API with an uninterpreted kernel and symbolic complex wavenumber; entrywise polynomial identities (cvc5/z3)",
+                text="The decomposition identities W = sum C'V0C - k^2 sum N'V1N (Laplace, Helmholtz, modified Helmholtz) and E = -ik sum R'V1R - (1/ik) D'V0D are proved entry by entry (regular + singular parts) for every geometry, kernel value and wavenumber on base meshes of <= 6 (8) elements; W.1 = 0 on closed meshes; symmetry of the non-adjacent EFIE block under a symmetric kernel.",
+                ref="3/C06"),
     "C12": dict(cat="other", tech="symbolic execution of the rule constructors (z3 terms) + SMT (LIA path exploration for unbounded orders, LRA over all polynomials with symbolic coefficients, NRA for Duffy region maps)",
                 text="Bounded symbolic verification: lookups decided for every integer order (all paths of the real lookup code), exactness decided for every polynomial of the stated degree for all 20 triangle / 30 Gauss orders and Duffy orders 2..4 (5 thorough), region maps for all 1-D nodes in (0,1), remaps for every point. unsat = holds for all values within these bounds.",
                 ref="3/C12"),
